@@ -86,7 +86,7 @@ func (c *Ctx) mergeRoutines(d *dstate) []*mergeRoutine {
 			for _, in := range b.Instrs {
 				if c.remoteWriteInstr(d, f, in) {
 					// a call to something that itself consults the predicate is a call to the routine, not the routine's write
-					if cl := core.CallOf(in); cl != nil && cl.Static != nil && c.reaches(cl.Static, 2, isAny(d.isOutdated)) {
+					if cl := core.CallOf(in); cl != nil && cl.Static != nil && c.reaches(cl.Static, 4, isAny(d.isOutdated)) {
 						continue
 					}
 					if cl := core.CallOf(in); cl != nil && cl.Is(d.upsert) {
@@ -96,7 +96,7 @@ func (c *Ctx) mergeRoutines(d *dstate) []*mergeRoutine {
 				}
 			}
 		}
-		if !writes || !c.reaches(f, 2, isAny(d.isOutdated)) {
+		if !writes || !c.reaches(f, 4, isAny(d.isOutdated)) {
 			continue
 		}
 		var cs []*core.Call
@@ -149,7 +149,7 @@ func (c *Ctx) remoteWriteInstr(d *dstate, fn *ssa.Function, in ssa.Instruction) 
 	if c.isStoreWrite(d, in) {
 		return true
 	}
-	if fn.Parent() == nil {
+	if fn.Parent() == nil && !c.upsertBodies(d)[fn] {
 		return false
 	}
 	switch x := in.(type) {
@@ -399,11 +399,13 @@ func (c *Ctx) ruleMergeTable(id string, d *dstate) {
 	}
 
 	ru4 := c.R.Rule(id+"b", "each batch is merged element by element: the routine loops over its whole payload slice and leaves the loop early only by returning a non-nil error", "E1 loop exits", 3)
-	for _, cl := range core.CallsIn(d.mergeRemote) {
+	seenBatch := map[*ssa.Function]bool{}
+	for _, cl := range c.callsDeep(d.mergeRemote, 2) {
 		m := cl.Static
-		if m == nil || m.Package() != d.pkg || !c.writesStore(d, m, 3) {
+		if m == nil || m.Package() != d.pkg || !c.writesStore(d, m, 3) || seenBatch[m] {
 			continue
 		}
+		seenBatch[m] = true
 		pidx := -1
 		for i, p := range m.Params {
 			if sl, ok := p.Type().Underlying().(*types.Slice); ok && d.isEntryType(sl.Elem()) {
@@ -527,4 +529,35 @@ func lastField(term string) string {
 		}
 	}
 	return ""
+}
+
+
+var upsertBodyCache = map[*dstate]map[*ssa.Function]bool{}
+
+// upsertBodies: the functions that run as part of a trie update callback (the function value handed to Tree.Upsert):
+// the callback itself and the package functions it calls. Storing into the decoded list there is the store write.
+func (c *Ctx) upsertBodies(d *dstate) map[*ssa.Function]bool {
+	if m, ok := upsertBodyCache[d]; ok {
+		return m
+	}
+	m := map[*ssa.Function]bool{}
+	upsertBodyCache[d] = m
+	for _, f := range c.P.ModFuncs() {
+		if f.Package() != d.pkg {
+			continue
+		}
+		for _, cl := range core.CallsTo(f, d.upsert) {
+			if len(cl.Args()) < 2 {
+				continue
+			}
+			cb := closureArg(cl.Args()[1])
+			if cb == nil {
+				continue
+			}
+			for _, g := range c.funcsDeepStop(cb, 3, func(g *ssa.Function) bool { return g.Package() != d.pkg }) {
+				m[g] = true
+			}
+		}
+	}
+	return m
 }
